@@ -69,8 +69,11 @@ def images(base: bytes, log, want=None):
     if want is None or want(0):
         yield 0, bytes(img), None
     for wi, (off, data) in enumerate(log):
-        if data is None:  # truncate: atomic
-            del img[off:]
+        if data is None:  # truncate: atomic; cuts, or extends with zeros (ftruncate semantics)
+            if off > len(img):
+                img.extend(b"\0" * (off - len(img)))
+            else:
+                del img[off:]
             if want is None or want(done):
                 yield done, bytes(img), (wi, -1)
             continue
@@ -336,8 +339,12 @@ def enum_big(tier, shard, nshards):
         {"via": "raw", "base": [], "session": [[255, 65536], [1, 0]], "recovery": [], "reuse_torn_key": True, "second_crash_every": 0, "stride": 64},
         {"via": "coll", "base": [[1, 0]], "session": [[5, 65535]], "recovery": [[1, 1]], "reuse_torn_key": True, "second_crash_every": 0, "stride": 64},
     ]
+    # values past the 1 MiB / 4 MiB marks (size thresholds of any "large record" path)
+    mb = {"via": "raw", "base": [[3, 10]], "session": [[4, (1 << 20) + 4097], [2, 5]], "recovery": [[2, 5]], "reuse_torn_key": True, "second_crash_every": 0, "stride": 8192}
     if tier == "quick":
-        cases = cases[1:2]
+        cases = cases[1:2] + [mb]
+    else:
+        cases += [mb, dict(mb, via="coll_buf", session=[[2, 5], [3, (1 << 22) + 1]], stride=65536)]
     for i, c in enumerate(cases):
         if i % nshards == shard:
             yield c
@@ -345,8 +352,8 @@ def enum_big(tier, shard, nshards):
 
 LEGS = [
     Leg(
-        "crash_big", check, classify, enumerate=enum_big, shards={"quick": 1, "thorough": 4},
-        rule="fixed sessions with 8-70 kB values; crash offsets sampled: every 16th/64th byte plus all offsets within 16 B of a field boundary (NOT exhaustive)",
+        "crash_big", check, classify, enumerate=enum_big, shards={"quick": 2, "thorough": 6},
+        rule="fixed sessions with 8-70 kB values and one value just over 1 MiB (thorough: also 4 MiB); crash offsets sampled: every 16th/64th byte plus all offsets within 16 B of a field boundary (NOT exhaustive)",
     ),
     Leg(
         "crash", check, classify, strategy=strat,
